@@ -251,7 +251,52 @@ def make_constraint_fun(ctx0, j, spec, shared=False):
         return np.array(vals, dtype=float)
 
     con.__name__ = "con%d" % j
-    return con
+    style = spec.get("callable", "function")
+    if style == "function":
+        return con
+    obj = _ConObj(con)
+    ctx0.__dict__.setdefault("con_objs", {})[j] = obj
+    if style == "method":
+        return obj.evaluate
+    if style == "instance":
+        return obj
+    if style == "partial":
+        return functools.partial(_con_with_tag, obj, "tag")
+    raise PeerError("bad constraint callable style %r" % (style,))
+
+
+class _ConObj:
+    """A stateful user object whose method / __call__ is the constraint function (e.g. a simulation shared by
+    objective and constraints).  It counts the calls it receives itself: if the library evaluates a private
+    copy of it instead, the user's own object never hears of the evaluations."""
+
+    def __init__(self, fn):
+        self.fn = fn
+        self.count = 0
+
+    def evaluate(self, x, *args):
+        self.count += 1
+        return self.fn(x, *args)
+
+    def __call__(self, x, *args):
+        self.count += 1
+        return self.fn(x, *args)
+
+
+def _con_with_tag(obj, tag, x, *args):
+    obj.count += 1
+    return obj.fn(x, *args)
+
+
+def make_jacobian(ctx, j, spec):
+    """A user-supplied Jacobian (documented as disregarded by cobyqa): every call is logged."""
+    m = len(spec["comps"])
+
+    def jac(x, *args):
+        ctx.log({"k": "jac", "j": j, "x": np.array(x, dtype=float).tobytes()})
+        return np.zeros((m, np.size(x)))
+
+    return jac
 
 
 class _CbObj:
